@@ -276,6 +276,9 @@ def _check_backend_faults(ctx, rep):
                 plans += [[("T", tcode)], [("T", tcode)] * 5]
             for pcode in ("403", "401", "InvalidAccessKeyId", "NoSuchBucket"):
                 plans += [[("P", pcode)], ["T", ("P", pcode)]]
+            if name in ("read_file", "read_file_with_etag"):     # (open_file hands the stream to its caller: reading it is the caller's)
+                # the request succeeds and the DOWNLOAD of the body breaks (connection reset mid-stream): transient like any other
+                plans += [[("B", "stream")], [("B", "stream")] * 3, ["T", ("B", "stream")]]
             for plan in plans:
                 fake2 = fakes3.FakeS3()
                 be2 = fakes3.make_backend("tbl", True, fake2)
@@ -285,8 +288,18 @@ def _check_backend_faults(ctx, rep):
                 def hook(phase, op, key, kw, state=state):
                     if phase != "before":
                         return
+                    nxt = state["left"][0] if state["left"] else None
+                    nxt_kind = (nxt if isinstance(nxt, str) else nxt[0]) if nxt is not None else None
+                    if op == "body-read":
+                        if nxt_kind == "B":
+                            state["left"].pop(0)
+                            from botocore.exceptions import ResponseStreamingError
+                            raise ResponseStreamingError(error="connection reset while streaming the body")
+                        return
+                    if op == "list-page":
+                        return
                     state["n"] += 1
-                    if state["left"]:
+                    if state["left"] and nxt_kind != "B":
                         f = state["left"].pop(0)
                         kind_, code_ = (f, "SlowDown" if f == "T" else "AccessDenied") if isinstance(f, str) else f
                         raise fakes3.client_error(code_, op)
@@ -297,10 +310,10 @@ def _check_backend_faults(ctx, rep):
                     got = fn(be2)
                     outcome = ("ok", got)
                 except Exception as e:      # noqa: BLE001
-                    outcome = ("raise", getattr(e, "response", {}).get("Error", {}).get("Code", type(e).__name__))
+                    outcome = ("raise", (getattr(e, "response", None) or {}).get("Error", {}).get("Code", type(e).__name__))
                 kinds_ = [p if isinstance(p, str) else p[0] for p in plan]
                 pcode_ = next((("AccessDenied" if isinstance(p, str) else p[1]) for p in plan if (p if isinstance(p, str) else p[0]) == "P"), None)
-                nT = len([k_ for k_ in kinds_ if k_ == "T"])
+                nT = len([k_ for k_ in kinds_ if k_ in ("T", "B")])
                 if "P" in kinds_:
                     if outcome != ("raise", pcode_) or state["n"] != kinds_.index("P") + 1:
                         rep.violate("C20:permanent-error-retried-or-swallowed", f"{name} under {plan}: {outcome}, {state['n']} requests",
@@ -347,7 +360,7 @@ def _twin(ctx, rep, model_ok):
                 os.makedirs(root)
                 loc = LocalStorageBackend(root)
                 fake = fakes3.FakeS3()
-                s3 = fakes3.make_backend(rng.choice(["tbl", "a/b", "t"]), True, fake)
+                s3 = fakes3.make_backend(rng.choice(["tbl", "a/b", "t", "data", "metadata", "data/data"]), True, fake)
                 present = set()
                 trace = []
                 for _ in range(rng.randint(3, 10 if not ctx.thorough else 30)):
@@ -419,7 +432,7 @@ def _listing_pages(ctx, rep):
     from datashard.storage_backend import LocalStorageBackend
     base = scratch_dir("c20l-")
     try:
-        for prefix in ("tbl", "a/b"):
+        for prefix in ("tbl", "a/b", "data", "metadata"):
             loc = LocalStorageBackend(os.path.join(base, prefix.replace("/", "_")))
             fake = fakes3.FakeS3()
             s3 = fakes3.make_backend(prefix, True, fake)
